@@ -35,7 +35,7 @@ class Unsupported(Exception):
     pass
 
 
-LEAN_T = {"I": "Int", "F": "Rat", "B": "Bool", "L": "List Int", "S": "String", "OF": "Option Rat", "E": "Ev", "LE": "List Ev"}
+LEAN_T = {"OE": "Option Ev", "I": "Int", "F": "Rat", "B": "Bool", "L": "List Int", "S": "String", "OF": "Option Rat", "E": "Ev", "LE": "List Ev"}
 IDENT = {"float", "JulianDate", "ScenarioTime", "cls"}
 
 
@@ -113,7 +113,10 @@ class FnTr:
             return f"{self.v(n.value.id)}.{n.attr}", "F"
         if isinstance(n, ast.Call) and isinstance(n.func, ast.Name) and n.func.id == "isinstance" and isinstance(n.args[0], ast.Name) \
                 and env.get(n.args[0].id) == "E":
-            # the event classes with a duration (the tuple the code tests for is recorded in the generated text)
+            # the event classes with a duration: the class (or tuple of classes) the code tests for must be one of these
+            tested = {x.id for x in ast.walk(n.args[1]) if isinstance(x, ast.Name)} | {x.attr for x in ast.walk(n.args[1]) if isinstance(x, ast.Attribute)}
+            if not tested or not tested <= {"ScheduledFiniteThrust", "ScheduledFiniteBurn", "ScheduledFiniteManeuver", "ContinuousStateChangeEvent"}:
+                raise Unsupported(f"isinstance test against {ast.unparse(n.args[1])}")
             return f"({self.v(n.args[0].id)}.isBurn = true)", "B"
         if isinstance(n, ast.Compare) and len(n.ops) == 1 and isinstance(n.ops[0], ast.In):
             a, ta = self.expr(n.left, env)
@@ -133,6 +136,8 @@ class FnTr:
                 raise Unsupported("None test on a non-optional")
             return (f"({e}.isSome = true)" if isinstance(n.ops[0], ast.IsNot) else f"({e}.isNone = true)"), "B"
         if isinstance(n, ast.Constant):
+            if n.value is None:
+                return "(none : Option Ev)", "OE"
             if isinstance(n.value, bool):
                 return ("True" if n.value else "False"), "B"
             if isinstance(n.value, int):
@@ -156,7 +161,9 @@ class FnTr:
             b, tb = self.expr(b_, env)
             if tc != "B":
                 raise Unsupported("non-boolean condition")
-            if ta != tb:
+            if {ta, tb} == {"E", "OE"}:
+                a, b, ta = (f"(some {a})" if ta == "E" else a), (f"(some {b})" if tb == "E" else b), "OE"
+            elif ta != tb:
                 a, b, ta = self.toF(a, ta), self.toF(b, tb), "F"
             return f"(if {c} then {a} else {b})", ta
         if isinstance(n, ast.BinOp) and isinstance(n.op, ast.Mod):
@@ -254,7 +261,7 @@ class FnTr:
                 raise Unsupported(f"arity of {f}")
             conv = []
             for (e, t), pt in zip(args, ptys):
-                conv.append(e if t == pt else self.toF(e, t) if pt == "F" else (_ for _ in ()).throw(Unsupported(f"argument type {t} for {pt}")))
+                conv.append(f"(decide {e})" if t == pt == "B" else e if t == pt else self.toF(e, t) if pt == "F" else (_ for _ in ()).throw(Unsupported(f"argument type {t} for {pt}")))
             app = "(" + " ".join([lean] + conv) + ")"
             return (f"({app} = true)" if rty == "B" else app), rty
         raise Unsupported(f"call {f}")
@@ -412,7 +419,8 @@ class FnTr:
                 a = self.block(s.body + rest, env, tail, ind + 1)
                 b = self.block((s.orelse or []) + rest, env, tail, ind + 1)
                 return f"if {c} then\n{pad}  ({a})\n{pad}else\n{pad}  ({b})"
-            ws = self.assigned(s.body + s.orelse)
+            # `_cb` is the branch-local temporary introduced by the callback rewrite (never read after the branch)
+            ws = [w for w in self.assigned(s.body + s.orelse) if w != "_cb"]
             for w in ws:
                 if w not in env:
                     raise Unsupported(f"{w} first assigned inside a branch")
@@ -583,6 +591,39 @@ TARGETS = {
               "consts": {"self._time": ("now", "F"), "self.propagate_event_queue": ("propagate_event_queue", "LE")}}),
         ],
     },
+    "Thrust": {
+        # the event functions scipy's solver watches for sign changes, and the on/off decision taken at a root (C15, C01)
+        "file": "dynamics/integration_events/finite_thrust.py",
+        "mode": "exact",
+        "imports": ["RV.Generated.Maths"],
+        "fns": [
+            ("ScheduledImpulse.__call__", "impulseEvent", {"self": "-", "time": "F", "state": "-"}, 0,
+             {"file": "dynamics/integration_events/scheduled_impulse.py",
+              "params": [("impulse_time", "F")], "consts": {"self.time": ("impulse_time", "F")}}),
+            ("ScheduledFiniteThrust.__call__", "thrustEvent", {"self": "-", "time": "F", "state": "-"}, 0,
+             {"params": [("start_time", "F"), ("end_time", "F"), ("active", "B")],
+              "consts": {"self.start_time": ("start_time", "F"), "self.end_time": ("end_time", "F"), "self.active": ("active", "B")}}),
+            # returns (self.active afterwards, whether a thrust function is handed to the propagator)
+            ("ScheduledFiniteThrust.getStateChangeCallback", "getStateChangeCallback", {"self": "-", "time": "F"}, 0,
+             {"params": [("end_time", "F"), ("active", "B")],
+              "consts": {"self.end_time": ("end_time", "F")},
+              "object_state": ({"self.active": "active"}, {"EventStack.pushEvent"},
+                               {"None": "(active, False)", "self.thrust_func": "(active, True)"})}),
+        ],
+    },
+    "Prep": {
+        # the body of the loop in which `Celestial._prepEvents` re-arms the burns already under way (C15): one pass, as a function of
+        # the thrust slot, the burn's `active` flag and the start of the call
+        "file": "dynamics/celestial.py",
+        "mode": "exact",
+        "imports": ["RV.Generated.Maths", "RV.Generated.Thrust"],
+        "fns": [
+            ("Celestial._prepEvents", "prepOne", {"finite_thrust": "OE", "ev_active": "B", "event": "E", "initial_time": "F"}, 0,
+             {"keep_isinstance": True, "loop_body": "(finite_thrust, ev_active)",
+              "known": {"getStateChangeCallback": ("RV.Generated.Thrust.getStateChangeCallback", ["F", "F", "B"], ("B", "B"))},
+              "object_state": ({"self.finite_thrust": "finite_thrust", "event.active": "ev_active"}, set(), {})}),
+        ],
+    },
     "MathsF64": {
         # the same source in binary64 semantics: where the rounding of `angle += TWOPI` matters (the open known finding of C12)
         "file": "physics/maths.py",
@@ -616,6 +657,35 @@ class _Isinstance(ast.NodeTransformer):
         self.generic_visit(node)
         if isinstance(node.func, ast.Name) and node.func.id == "isinstance":
             return ast.Constant(value=False)
+        return node
+
+
+class _ObjectState(ast.NodeTransformer):
+    """A method that reads and writes attributes of its object and returns a handle: the attributes named in `attrs`
+    become local variables (initial values enter as parameters), expression statements calling one of `drop` (logging,
+    the event stack) are removed, and each `return X` whose text is a key of `returns` returns the tuple given there -
+    the new attribute values together with what the caller can tell about the handle. Recorded in DESIGN.md as modelled."""
+
+    def __init__(self, attrs, drop, returns):
+        self.attrs, self.drop, self.returns = attrs, drop, returns
+
+    def visit_Attribute(self, node):
+        self.generic_visit(node)
+        key = ast.unparse(node)
+        if key in self.attrs:
+            return ast.Name(id=self.attrs[key], ctx=node.ctx)
+        return node
+
+    def visit_Expr(self, node):
+        if isinstance(node.value, ast.Call) and ast.unparse(node.value.func) in self.drop:
+            return ast.Pass()
+        return node
+
+    def visit_Return(self, node):
+        key = ast.unparse(node.value) if node.value is not None else "None"
+        if key in self.returns:
+            return ast.Return(value=ast.parse(self.returns[key], mode="eval").body)
+        self.generic_visit(node)
         return node
 
 
@@ -654,6 +724,39 @@ def generate(module):
         if table:
             fdef = _MethodOps(table).visit(fdef)
             ast.fix_missing_locations(fdef)
+        if "loop_body" in extra:
+            # the body of the function's `for` loop as a function of the loop variable and the state it updates:
+            # `continue` and the end of the body return that state
+            loop = next(x for x in ast.walk(fdef) if isinstance(x, ast.For))
+            ret = extra["loop_body"]
+
+            class _C(ast.NodeTransformer):
+                def visit_Continue(self, node):
+                    return ast.parse("return " + ret).body[0]
+
+                def visit_Assign(self, node):
+                    # `x = event.getStateChangeCallback(t)`: the callee (translated above) also sets event.active
+                    v = node.value
+                    if isinstance(v, ast.Call) and isinstance(v.func, ast.Attribute) and v.func.attr == "getStateChangeCallback" \
+                            and isinstance(v.func.value, ast.Name):
+                        ev, tgt, arg = v.func.value.id, ast.unparse(node.targets[0]), ast.unparse(v.args[0])
+                        return ast.parse(f"{ev}.active, _cb = getStateChangeCallback({arg}, {ev}.end_time, {ev}.active)\n"
+                                         f"{tgt} = {ev} if _cb else None").body
+                    return node
+            body = [_C().visit(x) for x in loop.body]
+            flat = []
+            for x in body:
+                flat.extend(x if isinstance(x, list) else [x])
+            fdef = ast.FunctionDef(name=fdef.name, args=ast.arguments(posonlyargs=[], args=[ast.arg(arg=a) for a in ptypes], kwonlyargs=[],
+                                   kw_defaults=[], defaults=[]), body=flat + [ast.parse("return " + ret).body[0]], decorator_list=[], lineno=loop.lineno)
+            ast.fix_missing_locations(fdef)
+            fdef = ast.parse(ast.unparse(fdef)).body[0]
+            if not extra.get("keep_isinstance"):
+                pass
+        if "object_state" in extra:
+            fdef = _ObjectState(*extra["object_state"]).visit(fdef)
+            ast.fix_missing_locations(fdef)
+        known.update(extra.get("known", {}))
         tr = FnTr(lean_name, fdef, spec["mode"], ptypes, dict(CONSTS, **extra.get("consts", {})), known, fuel)
         tr.extra_params = list(extra.get("params", []))
         tr.local_types = dict(extra.get("locals", {}))
@@ -661,7 +764,7 @@ def generate(module):
         # a guard `if False: raise` left by the isinstance rewrite is dropped
         fdef.body = [s for s in fdef.body if not (isinstance(s, ast.If) and isinstance(s.test, ast.Constant) and s.test.value is False)]
         chunks.append(tr.translate())
-        ptys = [t for _, t in tr.params]
+        ptys = [t for _, t in tr.params + tr.extra_params]
         known[qual.split(".")[-1] if "__" not in qual and "convert" not in qual else qual] = (lean_name, ptys, tr.ret_type)
         known[qual] = (lean_name, ptys, tr.ret_type)
     head = [
